@@ -126,7 +126,10 @@ func TestVerifContentSignature(t *testing.T) {
 	vrt.RunOnce(vrt.Options{Name: "signature", Horizon: 1 << 30}, func(r *vrt.Run) {
 		now := vrt.Now().Unix()
 		tol := int64(sigTolerance / time.Second)
-		tampers := []string{"none", "timestamp", "method", "path", "query", "body", "key", "signature", "fingerprint", "secret-blob", "foreign-keypair", "request-uri", "request-uri-consistent"}
+		tampers := []string{"none", "timestamp", "method", "path", "query", "body", "key", "signature", "fingerprint", "secret-blob", "foreign-keypair", "request-uri", "request-uri-consistent",
+			// paths that a router would treat as the same route are still different requests: what
+			// was signed is the path as sent
+			"path-trailing-slash", "path-double-slash", "path-dot-segment", "path-dotdot-segment", "unclean-path-signed-as-sent"}
 		for _, method := range []string{"GET", "POST", "PUT", "DELETE", "PATCH", "HEAD"} {
 			for _, strict := range []bool{true, false} {
 				for _, off := range []int64{-tol - 1, -tol, 0, tol, tol + 1} {
@@ -146,6 +149,17 @@ func TestVerifContentSignature(t *testing.T) {
 								q.sMethod = "TRACE"
 							case "path":
 								q.sPath = "/api/other"
+							case "path-trailing-slash":
+								q.path = "/api/do/"
+							case "path-double-slash":
+								q.path = "/api//do"
+							case "path-dot-segment":
+								q.path = "/api/./do"
+							case "path-dotdot-segment":
+								q.path = "/x/../api/do"
+							case "unclean-path-signed-as-sent":
+								q.path, q.sPath = "/api//do/", "/api//do/"
+								tampered = false
 							case "query":
 								q.sQuery = "a=1&b=3"
 							case "body":
